@@ -1377,16 +1377,16 @@ const ASTRAL: char = '\u{1F600}';
 const SV_MAX_EDITS: usize = 4;
 /// Script length (edit and sync steps together) for two and for three replicas.
 const SV_DEPTH_2: usize = 5;
-const SV_DEPTH_3: usize = 4;
+const SV_DEPTH_3: usize = 3;
 
 /// Step templates; the chunk of an insertion is derived from its position in
 /// the script (`a..`, `bb`, ..) so that every insertion is recognisable.
 #[derive(Clone, Copy, Debug)]
 enum Tmpl {
     /// replica, position, chunk kind: 1 = one letter, 2 = the letter twice,
-    /// 3 = one astral character, 4 = the astral character and the letter
-    /// (kind 4 is not part of the default alphabet: the run has to stay
-    /// within its time budget; `replay` accepts any chunk)
+    /// 3 = one astral character (4 = the astral character and the letter: not
+    /// in the default alphabet, it does not fit the time budget; `replay`
+    /// accepts any chunk)
     Ins(u64, InsAt, usize),
     Del(u64, bool),
     Sync(u64, u64, bool),
